@@ -176,6 +176,11 @@ Definition all_keys : list (string * AnyPattern) :=
 Definition read_full_report : string -> list (option string * AnyPattern * string * Z) :=
   read_report all_keys vul_headings.
 
+(* a category's map seen as a map over AnyPattern *)
+Definition tag_findings {P : Type} (tag : P -> AnyPattern) (F : list (P * list (string * list Z)))
+  : list (AnyPattern * list (string * list Z)) :=
+  map (fun kv => (tag (fst kv), snd kv)) F.
+
 (* forget the heading *)
 Definition drop_heading {P : Type} (e : option string * P * string * Z) : P * string * Z :=
   let '(_, p, f, z) := e in (p, f, z).
@@ -212,3 +217,24 @@ Definition printed_total (heading : string) (report : string) : option N :=
 (* a line of the report *)
 Definition has_line (l : string) (report : string) : Prop := In l (split_lines report).
 Definition has_lineb (l : string) (report : string) : bool := existsb (String.eqb l) (split_lines report).
+
+(* ---------------------------------------------------------------- hypotheses on a findings map *)
+Fixpoint no_lfb (s : string) : bool :=
+  match s with
+  | EmptyString => true
+  | String c r => negb (Ascii.eqb c LF) && no_lfb r
+  end.
+
+(* what analyze_dir builds: a pattern is entered only with a non-empty vector, a (file, lines)
+   pair is pushed only when lines is non-empty; a file name contains no line feed *)
+Definition wf_findings {P : Type} (F : list (P * list (string * list Z))) : Prop :=
+  forall p v, In (p, v) F ->
+    v <> [] /\ forall f ls, In (f, ls) v -> ls <> [] /\ no_lfb f = true.
+
+(* only the part needed to cut the report into lines *)
+Definition names_without_lf {P : Type} (F : list (P * list (string * list Z))) : Prop :=
+  forall p v f ls, In (p, v) F -> In (f, ls) v -> no_lfb f = true.
+
+(* pattern p has a finding: some file, some line *)
+Definition has_finding {P : Type} (p : P) (F : list (P * list (string * list Z))) : Prop :=
+  exists v f ls z, In (p, v) F /\ In (f, ls) v /\ In z ls.
